@@ -45,17 +45,37 @@ ASSUMPTIONS = [
 ]
 
 
-EXPECTED_PROBES = ['removed_id_inserted_again', 'heap_emptied_by_pop', 'heap_full', 'heap_refilled_after_emptying', 'internal_arrays_inconsistent_while_behaviour_ok', 'pop_with_tie_at_extremum', 'real_fit_', 'real_trace_precondition_breach', 'real_trace_seam_not_engaged', 'real_update_of_queued', 'update_as_insert', 'update_strictly_improves']
+EXPECTED_PROBES = ['several_heaps_interleaved', 'removed_id_inserted_again', 'heap_emptied_by_pop', 'heap_full', 'heap_refilled_after_emptying', 'internal_arrays_inconsistent_while_behaviour_ok', 'pop_with_tie_at_extremum', 'real_fit_', 'real_trace_precondition_breach', 'real_trace_seam_not_engaged', 'real_update_of_queued', 'update_as_insert', 'update_strictly_improves']
 
 
 def arms(tier):
     if tier == "thorough":
-        return [("synth", 20_000_000), ("wide", 2_000_000), ("real", 600_000)]
-    return [("synth", 900_000), ("wide", 80_000), ("real", 30_000)]
+        return [("synth", 20_000_000), ("wide", 2_000_000), ("duo", 4_000_000), ("real", 600_000)]
+    return [("synth", 800_000), ("wide", 80_000), ("duo", 150_000), ("real", 30_000)]
 
 
 def hist_slice(tier):
     return 16 if tier == "thorough" else 1
+
+
+def gen_duo(rng):
+    """Two or three heaps alive at once, their operations interleaved by the scheduler (state
+    shared between instances - a class attribute, a mutable default - shows only this way)."""
+    heaps = [{"size": rng.randint(1, 8), "policy": rng.choice(("min", "max"))} for _ in range(rng.randint(2, 3))]
+    alpha = rng.choice(("tiny", "small", "float", "numpy", "binary"))
+    ops = []
+    for _ in range(rng.randint(4, 60)):
+        hi = rng.randrange(len(heaps))
+        r = rng.random()
+        if r < 0.45:
+            ops.append(["put", hi, rng.randrange(heaps[hi]["size"]), _cost(rng, alpha)])
+        elif r < 0.65:
+            ops.append(["upd", hi, rng.randrange(heaps[hi]["size"]), _cost(rng, alpha)])
+        elif r < 0.95:
+            ops.append(["pop", hi])
+        else:
+            ops.append(["insf", hi, rng.randrange(heaps[hi]["size"])])
+    return {"heaps": heaps, "alpha": alpha, "ops": ops}
 
 
 ALPHABETS = {
@@ -64,6 +84,7 @@ ALPHABETS = {
     "float": None,
     "extreme": [0, -1.5, 2.5, FMAX, -FMAX, 1e-300, 1.0],
     "binary": [0.0, 1.0],
+    "numpy": "numpy",
 }
 
 
@@ -71,15 +92,23 @@ def _cost(rng, alpha):
     a = ALPHABETS[alpha]
     if a is None:
         return round(rng.uniform(-100, 100), 2)
+    if a == "numpy":
+        return ["np", float(rng.randint(0, 4))]  # decoded to np.float64 by the executor (what np.maximum hands the heap)
     return rng.choice(a)
+
+
+def _dec(c):
+    return np.float64(c[1]) if isinstance(c, list) else c
 
 
 def gen_case(rng, arm, tier, k=0):
     if arm == "real":
         return gen_real(rng)
+    if arm == "duo":
+        return gen_duo(rng)
     size = rng.randint(1, 12) if arm == "synth" else rng.randint(8, 64)
     policy = rng.choice(("min", "max"))
-    alpha = rng.choice(("tiny", "small", "float", "extreme", "binary", "tiny", "float"))
+    alpha = rng.choice(("tiny", "small", "float", "extreme", "binary", "tiny", "float", "numpy"))
     length = rng.randint(1, 80 if arm == "synth" else 200)
     w_put = rng.choice((1, 2, 4))
     w_updn = rng.choice((0, 1, 3))
@@ -87,7 +116,8 @@ def gen_case(rng, arm, tier, k=0):
     w_pop = rng.choice((1, 2, 3))
     w_fault = rng.choice((0, 0, 1, 2))
     fill_first = rng.random() < 0.25  # bias towards a full heap so insert-on-full fires
-    better = (lambda a, b: a <= b) if policy == "min" else (lambda a, b: a >= b)
+    val = lambda c_: c_[1] if isinstance(c_, list) else c_  # noqa: E731
+    better = (lambda a, b: val(a) <= val(b)) if policy == "min" else (lambda a, b: val(a) >= val(b))
     queued = {}
     fresh = list(range(size))
     rng.shuffle(fresh)
@@ -144,12 +174,12 @@ def gen_case(rng, arm, tier, k=0):
             ops.append(["upd", i, c])
         elif kind == "pop":
             if queued:
-                ext = min(queued.values()) if policy == "min" else max(queued.values())
+                ext = min(queued.values(), key=val) if policy == "min" else max(queued.values(), key=val)
                 # which tied element leaves is the implementation's choice: the generator
                 # cannot know it, so it forgets one arbitrary extremal id; the executor
                 # re-validates every op against the real model state anyway
                 for i in sorted(queued):
-                    if queued[i] == ext:
+                    if val(queued[i]) == val(ext):
                         del queued[i]
                         removed.append(i)
                         break
@@ -256,7 +286,7 @@ def run_synth(case, out):
         got = None
         ctx = "op #%d %s" % (n, op)
         if kind == "put":
-            i, c = op[1], op[2]
+            i, c = op[1], _dec(op[2])
             if i in m.queued or not (0 <= i < size):
                 continue
             if i in m.ever:
@@ -271,7 +301,7 @@ def run_synth(case, out):
             norm.append(("put", i, c))
             log.add("put", i, c)
         elif kind == "upd":
-            i, c = op[1], op[2]
+            i, c = op[1], _dec(op[2])
             if not (0 <= i < size):
                 continue
             if i in m.queued:
@@ -350,11 +380,81 @@ def run_synth(case, out):
     if sorted(m.returned) != sorted(m.inserted):
         raise Stop(violation("exactly-once", "insertions %s but removals returned %s" % (sorted(m.inserted), sorted(m.returned)), policy=policy))
     out.digest = log.hexdigest()
-    order = sorted(c for c in {o[2] for o in norm if len(o) > 2})
+    order = sorted(c for c in {float(o[2]) for o in norm if len(o) > 2})
     rank = {c: k for k, c in enumerate(order)}
-    out.hist = h64((size, policy, tuple((o[0], o[1] if len(o) > 1 else -1, rank[o[2]] if len(o) > 2 else -1) for o in norm)))
+    out.hist = h64((size, policy, tuple((o[0], o[1] if len(o) > 1 else -1, rank[float(o[2])] if len(o) > 2 else -1) for o in norm)))
     out.nontrivial = m.pops >= 2 and m.upd_queued >= 1
     out.states = states
+
+
+def run_duo(case, out):
+    Heap = B.heap_mod.Heap
+    hs = [lib_call("Heap()", Heap, h["size"], h["policy"]) for h in case["heaps"]]
+    ms = [PQModel(h["size"], h["policy"]) for h in case["heaps"]]
+    log = EventLog()
+    norm = []
+    for n, op in enumerate(case["ops"]):
+        kind, hi = op[0], op[1] % len(hs)
+        h, m = hs[hi], ms[hi]
+        ctx = "op #%d %s on heap %d" % (n, op, hi)
+        if kind == "put":
+            i, c = op[2] % m.size, _dec(op[3])
+            if i in m.queued:
+                continue
+            h.cost[i] = c
+            r = lib_call("insert", h.insert, i)
+            if not r:
+                raise Stop(violation("insert-reported-failure", "insert(%d) into a heap holding %d of %d returned %r (%s)" % (i, len(m.queued), m.size, r, ctx), policy=m.policy, several_heaps=True))
+            m.queued[i] = c
+            m.ever.add(i)
+            m.inserted.append(i)
+        elif kind == "upd":
+            i, c = op[2] % m.size, _dec(op[3])
+            if i in m.queued:
+                if not m.no_worse(c, m.queued[i]):
+                    continue
+                m.upd_queued += 1
+            elif i in m.ever:
+                continue
+            else:
+                m.ever.add(i)
+                m.inserted.append(i)
+            lib_call("update", h.update, i, c)
+            m.queued[i] = c
+        elif kind == "pop":
+            if not m.queued:
+                bump(out.faults, "remove_on_empty")
+            r = lib_call("remove", h.remove)
+            m.check_pop(r, ctx)
+        elif kind == "insf":
+            if len(m.queued) != m.size:
+                continue
+            bump(out.faults, "insert_on_full")
+            r = lib_call("insert", h.insert, op[2] % m.size)
+            if r:
+                raise Stop(violation("insert-full-not-failure", "insert on a full heap returned %r (%s)" % (r, ctx), policy=m.policy))
+        else:
+            continue
+        out.steps += 1
+        norm.append((kind, hi, op[2] if len(op) > 2 else -1))
+        log.add(kind, hi, op[2:] if len(op) > 2 else ())
+        # every heap - not only the one just used - must still report its own state
+        for hj, mj in zip(hs, ms):
+            mj.check_flags(hj, ctx)
+    for hi, (h, m) in enumerate(zip(hs, ms)):
+        guard = len(m.queued) + 1
+        while m.queued and guard > 0:
+            guard -= 1
+            m.check_pop(lib_call("remove", h.remove), "drain of heap %d" % hi)
+            out.steps += 1
+        m.check_pop(lib_call("remove", h.remove), "pop after drain of heap %d" % hi)
+        if sorted(m.returned) != sorted(m.inserted):
+            raise Stop(violation("exactly-once", "heap %d: insertions %s but removals returned %s" % (hi, sorted(m.inserted), sorted(m.returned)), policy=m.policy))
+    bump(out.probes, "several_heaps_interleaved")
+    out.digest = log.hexdigest()
+    out.hist = h64((tuple((h["size"], h["policy"]) for h in case["heaps"]), tuple(norm)))
+    out.nontrivial = sum(m.pops for m in ms) >= 2 and sum(m.upd_queued for m in ms) >= 1
+    out.states = set()
 
 
 # --------------------------------------------------------------------------- real traces
@@ -624,6 +724,8 @@ def run_case(case):
     try:
         if case.get("arm") == "real" or "kind" in case:
             run_real(case, out)
+        elif "heaps" in case:
+            run_duo(case, out)
         else:
             run_synth(case, out)
     except Stop as s:
@@ -659,6 +761,14 @@ def shrink(case):
                 c[key] = case[key] - 1
                 yield c
         return
+    if "heaps" in case:
+        if len(case["heaps"]) > 2:
+            for drop in range(len(case["heaps"])):
+                c = dict(case)
+                c["heaps"] = case["heaps"][:drop] + case["heaps"][drop + 1 :]
+                c["ops"] = [[o[0], o[1] - (1 if o[1] > drop else 0)] + o[2:] for o in case["ops"] if o[1] != drop]
+                yield c
+        return
     ops = case["ops"]
     used = sorted({o[1] for o in ops if len(o) > 1})
     # smaller capacity (renumber ids densely)
@@ -669,6 +779,12 @@ def shrink(case):
         c["ops"] = [[o[0], ren[o[1]]] + o[2:] if len(o) > 1 else o for o in ops]
         yield c
     # simpler costs: replace by small integers preserving order
+    if any(isinstance(o[2], list) for o in ops if len(o) > 2):
+        # numpy-typed costs: try plain floats of the same values
+        c = dict(case)
+        c["ops"] = [[o[0], o[1], o[2][1] if isinstance(o[2], list) else o[2]] if len(o) > 2 else o for o in ops]
+        yield c
+        return
     costs = sorted({o[2] for o in ops if len(o) > 2})
     if costs and costs != list(range(len(costs))):
         rk = {c_: k for k, c_ in enumerate(costs)}
